@@ -353,6 +353,38 @@ def check_embeddings(rng):
                 A = A_src
 
 
+def takagi_boundary_cases(rng):
+    """matrices that are NOT symmetric by an amount between the documented absolute tolerance and a relative 1e-5 band"""
+    out = []
+    for n, cplx in ((2, False), (3, False), (5, False), (4, True)):
+        B = rng.randn(n, n) + (1j * rng.randn(n, n) if cplx else 0)
+        S = B + B.T
+        for eps, rel in ((1e-9, False), (1e-7, False), (4e-6, True), (1e-4, False)):
+            N = S.copy()
+            N[0, n - 1] += eps * (abs(N[0, n - 1]) if rel else 1.0)
+            out.append((f"{'complex' if cplx else 'real'} {n}x{n} symmetric matrix with one entry off by {eps:g}{' (relative)' if rel else ''}", N))
+    W = np.diag(np.full(5, 300.0), 1)
+    W = W + W.T
+    W[1, 2] += 2e-3
+    out.append(("weighted path graph 6x6 with one weight of 300 off by 2e-3", W))
+    return out
+
+
+def takagi_boundary_case(lab, N):
+    try:
+        rl, U = dec.takagi(N)
+    except ValueError:
+        return None
+    err = abs(U @ np.diag(rl) @ U.T - N).max()
+    return f"takagi accepted a non-symmetric input ({lab}: |N - N^T| = {np.linalg.norm(N - N.T):.3g}) and returned factors with max|U diag(s) U^T - N| = {err:.3g}"
+
+
+def replay_takagi_validation(obligation, I):
+    from native.common import run_replay
+    rng = np.random.RandomState(3)
+    run_replay(obligation, None, lambda inp: takagi_boundary_case(*inp), takagi_boundary_cases(rng))
+
+
 def bipartite_case(lab, A, mp):
     """None | text: bipartite_graph_embed(A) must return unitaries U, V and squeezing values r with U tanh(|r|) V^T proportional
     to A (every valid complex square matrix: symmetric, Hermitian, or neither) and the requested mean photon number"""
@@ -378,6 +410,14 @@ def bipartite_families(n, rng):
     return [("real non-symmetric", rng.randn(n, n)), ("real symmetric", (B + B.T).real), ("complex symmetric", B + B.T), ("complex non-symmetric", B),
             ("complex Hermitian", B + B.conj().T), ("Hermitian with real diagonal only", np.diag(rng.rand(n) + 0.5) + 1j * (np.triu(np.ones((n, n)), 1) - np.tril(np.ones((n, n)), -1))),
             ("permutation", np.eye(n)[::-1] + 0j), ("rank one", np.outer(B[0], B[1]))]
+
+
+def check_takagi_validation(rng):
+    for lab, N in takagi_boundary_cases(rng):
+        EVAL[0] += 1
+        msg = takagi_boundary_case(lab, N)
+        if msg:
+            bad(msg)
 
 
 def check_bipartite(rng):
@@ -408,7 +448,7 @@ def replay_bipartite(obligation, I):
 
 if __name__ == "__main__":
     rng = np.random.RandomState(seed)
-    for f in (check_null_helpers, check_meshes, check_driver_structure, check_takagi, check_williamson_bm, check_embeddings, check_bipartite):
+    for f in (check_null_helpers, check_meshes, check_driver_structure, check_takagi, check_williamson_bm, check_embeddings, check_bipartite, check_takagi_validation):
         try:
             f(rng)
         except Exception:
